@@ -281,8 +281,12 @@ static cfg_opt_t *cfg_getopt_secidx(cfg_t *cfg, const char *name,
 			/* no more subsections */
 			break;
 
-		if (!len)
+		if (!len) {
+			/* stray '|' or '=' where a section name must stand */
+			if (index)
+				goto malformed;
 			break;
+		}
 
 		secname = strndup(name, len);
 		if (!secname)
@@ -337,7 +341,13 @@ static cfg_opt_t *cfg_getopt_secidx(cfg_t *cfg, const char *name,
 			return NULL;
 
 		name += len;
-		name += strspn(name, "|");
+		if (*name == '|') {
+			name++;
+			if (*name == '|' || !*name)
+				goto malformed; /* doubled or trailing separator */
+		} else if (*name) {
+			goto malformed; /* text glued to a quoted title */
+		}
 	}
 
 	if (!index) {
@@ -348,6 +358,11 @@ static cfg_opt_t *cfg_getopt_secidx(cfg_t *cfg, const char *name,
 	}
 
 	return opt;
+
+malformed:
+	if (!is_set(CFGF_IGNORE_UNKNOWN, cfg->flags))
+		cfg_error(cfg, _("malformed option path at '%s'"), name);
+	return NULL;
 }
 
 DLLIMPORT cfg_opt_t *cfg_getnopt(cfg_t *cfg, unsigned int index)
